@@ -160,13 +160,27 @@ func (c13) Exec(h []Ev) []Ev {
 			e["panic"] = guard(func() { c13Emitted(e) })
 			continue
 		}
-		d := GB(e["data"])
+		// the input is handed over as a sub-slice of a larger buffer (spare capacity behind it, as when a
+		// caller checksums the front part of a section): neither the input nor the bytes around it may change,
+		// and a checksum returned earlier must not change under later calls
+		src := GB(e["data"])
+		buf := make([]byte, 8+len(src)+8)
+		for i := range buf {
+			buf[i] = 0x5a
+		}
+		copy(buf[8:], src)
+		keepBuf := append([]byte(nil), buf...)
+		d := buf[8 : 8+len(src)]
 		keep := append([]byte(nil), d...)
 		e["panic"] = guard(func() {
 			c := gots.ComputeCRC(d)
+			first := append([]byte(nil), c...)
 			e["crc"] = B(c)
-			e["input_same"] = string(d) == string(keep)
+			e["input_same"] = string(d) == string(keep) && string(buf) == string(keepBuf)
 			e["crc_appended"] = B(gots.ComputeCRC(append(append([]byte(nil), keep...), c...)))
+			gots.ComputeCRC(buf[8 : 8+len(src)/2])
+			gots.ComputeCRC(d)
+			e["earlier_same"] = string(c) == string(first) && string(buf) == string(keepBuf)
 		})
 	}
 	return h
